@@ -42,6 +42,7 @@ ALPHABET = ["send_anon", "send_anon2", "send_plain", "ready_ok", "ready_noflag",
             "closing", "removed", "attach_toggle", "anon_toggle", "burst"]
 # lifecycle events, used by the Hypothesis-drawn words and by a small exhaustive family of their own
 LIFECYCLE = ["replace_overlay", "unload_plain", "load_second_anon"]
+EXTRA = ["ready_firsthop_ipv8"]
 
 
 class Rig:
@@ -76,12 +77,15 @@ class Rig:
         from ipv8_rust_tunnels import generate_session_keys
         self.keys = [generate_session_keys(os.urandom(64)) for _ in range(4)]
         self.calls: list = []
+        self.truth: dict[int, tuple] = {}     # circuit id -> flags of its last hop (the exit), as built by the rig
         orig = self.tc.send_data
 
         def traced(target, circuit_id, dest_address, source_address, data):
             circ = self.tc.circuits.get(circuit_id)
+            # the exit's flags are taken from what the rig put into the last hop, not from Circuit.exit_flags
             self.calls.append((circuit_id, data, None if circ is None else
-                               (circ.state, circ.goal_hops, tuple(circ.exit_flags), len(circ.hops)), tuple(dest_address)))
+                               (circ.state, circ.goal_hops, self.truth.get(circuit_id, ()), len(circ.hops)),
+                               tuple(dest_address)))
             return orig(target, circuit_id, dest_address, source_address, data)
         self.tc.send_data = traced
         self.counter = 0
@@ -102,16 +106,19 @@ class Rig:
         self.net.log.clear()
         self.net.inflight.clear()
         self.calls.clear()
+        self.truth.clear()
         self.counter = 0
         self.cid = 100
 
-    def add_circuit(self, goal: int, nhops: int, flags: list) -> None:
+    def add_circuit(self, goal: int, nhops: int, flags: list, first_flags: list | None = None) -> None:
         from ipv8.messaging.anonymization.tunnel import Circuit, Hop
         self.cid += 1
         c = Circuit(self.cid, goal)
         for k in range(nhops):
-            c.add_hop(Hop(self.peers[k], self.keys[k], flags=list(flags) if k == nhops - 1 else [RELAY]))
+            hop_flags = list(flags) if k == nhops - 1 else list(first_flags or [RELAY]) if k == 0 else [RELAY]
+            c.add_hop(Hop(self.peers[k], self.keys[k], flags=hop_flags))
         self.tc.circuits[self.cid] = c
+        self.truth[self.cid] = tuple(flags) if nhops else ()
 
 
 async def run_word(rig: Rig, word: list, case: dict) -> tuple[bool, str]:
@@ -135,8 +142,8 @@ async def run_word(rig: Rig, word: list, case: dict) -> tuple[bool, str]:
         return snapshot is not None and snapshot[0] == "READY" and snapshot[1] == rig.cfg_hops and EXIT_IPV8 in snapshot[2]
 
     def has_qualifying() -> bool:
-        return attached and any(c.state == "READY" and c.goal_hops == rig.cfg_hops and EXIT_IPV8 in c.exit_flags
-                                for c in tc.circuits.values())
+        return attached and any(c.state == "READY" and c.goal_hops == rig.cfg_hops and EXIT_IPV8 in rig.truth.get(cid, ())
+                                for cid, c in tc.circuits.items())
 
     windows: dict[bytes, bytes] = {}      # 16-byte window of an anonymised packet -> its prefix
     raw_checked = [0]
@@ -222,6 +229,10 @@ async def run_word(rig: Rig, word: list, case: dict) -> tuple[bool, str]:
         elif ev == "ready_noflag":
             rig.add_circuit(rig.cfg_hops, rig.cfg_hops, [RELAY, EXIT_BT])
             state_change_since_send = True
+        elif ev == "ready_firsthop_ipv8":
+            # right length, ready, but only its FIRST hop is IPv8-exit capable; the exit is a BitTorrent-only exit
+            rig.add_circuit(rig.cfg_hops, rig.cfg_hops, [RELAY, EXIT_BT], first_flags=[RELAY, EXIT_IPV8])
+            state_change_since_send = True
         elif ev == "ready_otherlen":
             rig.add_circuit(rig.cfg_hops + 1, rig.cfg_hops + 1, [RELAY, EXIT_IPV8])
             state_change_since_send = True
@@ -297,7 +308,7 @@ def _enum_shard(ctx: Ctx, shard: int, nshards: int, depth: int) -> None:
                     except Violation as v:
                         ctx.violation(v)
             # lifecycle family: every word of length <= 4 over sends + circuit + lifecycle events that has a lifecycle event
-            small = ["send_anon", "send_anon2", "send_plain", "ready_ok", "closing", *LIFECYCLE]
+            small = ["send_anon", "send_anon2", "send_plain", "ready_ok", "closing", *LIFECYCLE, *EXTRA]
             for d in range(2, 5):
                 for idxs in itertools.product(range(len(small)), repeat=d):
                     k += 1
@@ -324,7 +335,7 @@ def _random_shard(ctx: Ctx, shard: int, nshards: int, n: int) -> None:
                 case = {"word": word}
                 nt, cls = loop.run_until_complete(run_word(rig, word, case))
                 ctx.case(case, nt, cls=cls)
-            hyp_run(ctx, "words", st.lists(st.sampled_from(ALPHABET + ALPHABET[:3] * 2 + LIFECYCLE), min_size=1,
+            hyp_run(ctx, "words", st.lists(st.sampled_from(ALPHABET + ALPHABET[:3] * 2 + LIFECYCLE + EXTRA), min_size=1,
                                            max_size=60), body, n)
         finally:
             loop.run_until_complete(rig.node.unload())
